@@ -361,8 +361,10 @@ def null_writes(ck, owners, rule="NULLW", fns=None):
                 inv.append(c_cmp("ule", tu.obs(fn, pre2, "end") - tu.obs(fn, pre2, "begin"), tu.obs(fn, pre2, "mc")))
                 inv.append(c_cmp("ule", tu.obs(fn, pre2, "size"), tu.obs(fn, pre2, "cap")))
                 inv.append(c_cmp("ule", tu.obs(fn, pre2, "begin"), tu.obs(fn, pre2, "end")))
+        sizes = {arg2: tu.obs(fn, pre2, "size") for (arg2, role2, pre2, post2) in objs if role2 in ("live", "dies")}
         for (p, b, arg) in ptrs:
-            base = Facts([c_cmp("eq", p, ZERO), c_cmp("eq", b, ZERO)] + inv)
+            # I5-null (checked on every post-state by V2 / Z1): an operand without a block is empty
+            base = Facts([c_cmp("eq", p, ZERO), c_cmp("eq", b, ZERO), c_cmp("eq", sizes[arg], ZERO)] + inv)
             a = p.single_atom()
             for e in writes:
                 dst = e.args[0]
